@@ -117,11 +117,22 @@ func c16Collect(p *ana.Prog, r *ana.Result, cm *ssa.Function) {
 		if !isCmp || c.Op != token.NEQ {
 			return
 		}
-		if ph, ok := c.X.(*ssa.Phi); ok && ph.Block() == b && isLenOf(c.Y) {
-			call, _ := ana.CallOf(c.Y)
-			if call.Common().Args[0] == ssa.Value(ms) {
-				iPhi = ph
-				nVal = c.Y
+		for _, c := range []ana.Cmp{c, c.Mirror()} {
+			// the counter is a loop-header phi; the test may sit in a later block of a compound loop condition
+			leaves := false // the test decides whether the loop goes on: one of its outcomes leaves the loop
+			if ph, ok := c.X.(*ssa.Phi); ok {
+				for _, sc := range b.Succs {
+					if !inLoopOf(ph.Block(), sc) && sc != ph.Block() {
+						leaves = true
+					}
+				}
+			}
+			if ph, ok := c.X.(*ssa.Phi); ok && leaves && (ph.Block() == b || ph.Block().Dominates(b)) && inLoopHeader(ph) && isLenOf(c.Y) {
+				call, _ := ana.CallOf(c.Y)
+				if call.Common().Args[0] == ssa.Value(ms) {
+					iPhi = ph
+					nVal = c.Y
+				}
 			}
 		}
 	})
@@ -131,12 +142,36 @@ func c16Collect(p *ana.Prog, r *ana.Result, cm *ssa.Function) {
 	}
 	header := iPhi.Block()
 	var inc *ssa.BinOp
-	for _, e := range iPhi.Edges {
-		if bo, ok := e.(*ssa.BinOp); ok && bo.Op == token.ADD && bo.X == ssa.Value(iPhi) {
-			if k, _ := ana.ConstInt(bo.Y); k == 1 {
-				inc = bo
+	// the values merged into the counter: 0, the counter itself (unchanged), or the counter + 1
+	var leaves []ssa.Value
+	seenPhi := map[*ssa.Phi]bool{iPhi: true}
+	var expandI func(v ssa.Value)
+	expandI = func(v ssa.Value) {
+		if q, ok := v.(*ssa.Phi); ok {
+			if q == iPhi {
+				return
 			}
-		} else if k, ok := ana.ConstInt(e); !ok || k != 0 {
+			if !seenPhi[q] {
+				seenPhi[q] = true
+				for _, e := range q.Edges {
+					expandI(e)
+				}
+			}
+			return
+		}
+		leaves = append(leaves, v)
+	}
+	for _, e := range iPhi.Edges {
+		expandI(e)
+	}
+	for _, e := range leaves {
+		if bo, ok := e.(*ssa.BinOp); ok && bo.Op == token.ADD && bo.X == ssa.Value(iPhi) {
+			if k, _ := ana.ConstInt(bo.Y); k == 1 && (inc == nil || inc == bo) {
+				inc = bo
+				continue
+			}
+		}
+		if k, ok := ana.ConstInt(e); !ok || k != 0 {
 			r.Violate("C16.balance", fname, "counter-init", posOf(p, iPhi), "the receive counter does not start at 0 / is changed by something other than +1")
 		}
 	}
@@ -180,10 +215,8 @@ func c16Collect(p *ana.Prog, r *ana.Result, cm *ssa.Function) {
 				if arm == nil {
 					r.Violate("C16.deadline", fname, "done-arm", posOf(p, sel), "UNDECIDED: arm of the ctx.Done case not found")
 				} else {
-					s := &ana.Search{Fn: cm, NoFacts: true, Target: func(in ssa.Instruction) bool {
-						if in.Block() == header {
-							return true
-						}
+					// path-sensitive: an exit flag set on the arm and tested by the loop condition counts as leaving
+					s := &ana.Search{Fn: cm, Target: func(in ssa.Instruction) bool {
 						_, isSel := in.(*ssa.Select)
 						return isSel
 					}}
